@@ -83,10 +83,10 @@ for i in ids:
 
 m = {
  'version': 1,
- 'setup_cmd': 'cd /verif && CARGO_NET_OFFLINE=true cargo build --release --offline -p vcheck',
+ 'setup_cmd': 'cd /verif && bin/check --build-only',
  'hooks': {
    'guard': 'mini_mcmc_verif',
-   'enable': "rustc --cfg mini_mcmc_verif, emitted for the library only by the shadow manifest /verif/shadow (package mini-mcmc, [lib] path=/repo/src/lib.rs, build.rs prints cargo:rustc-cfg=mini_mcmc_verif); bin/check rebuilds it from /repo's working tree on every invocation",
+   'enable': "rustc --cfg mini_mcmc_verif, emitted for the library only by the shadow manifest /verif/shadow (package mini-mcmc, [lib] path = a copy of /repo/src made by bin/check on every invocation in which `std::sync::` paths are redirected to the simulator's look-alike module; build.rs prints cargo:rustc-cfg=mini_mcmc_verif)",
    'baseline_off_cmd': 'cd /repo && cargo nextest run --workspace --no-fail-fast --offline --test-threads 8 || cargo test --workspace --no-fail-fast --offline',
    'source_commits': hook_shas,
    'add_only': True,
